@@ -137,6 +137,7 @@ pub fn make_config(profile: &str, run_seed: u64, thorough: bool, ntasks: usize, 
     // a thousand rows next to small ones (beyond small-size thresholds of the parallel plumbing).
     let crowded = rng.chance(1, 6);
     let big = !crowded && rng.chance(1, 60);
+    let big = big && !cfg!(miri);
     if !rng.chance(empty_prob, 10) {
         if crowded {
             let mut masks: Vec<u8> = (0..32).collect();
